@@ -1,6 +1,7 @@
 """C19 - three-way directory merge never silently loses or overrides an entry."""
 
 import itertools
+import os
 
 from ..oracle import canonical_dir_oid
 
@@ -15,7 +16,7 @@ ASSUMPTIONS = [
     "per-key three-way rule: a path takes the side that changed it, or the common value when both agree; otherwise conflict",
 ]
 MONITORS = "outcome of tree._merge / tree.merge compared with an independent per-key three-way merge"
-REQUIRED_COUNTERS = ["ancestor_unavailable_cases", "merge_calls", "accepted", "refused", "order_pairs_compared", "merge_via_store"]
+REQUIRED_COUNTERS = ["non_canonical_stored_listings", "policy_sequences", "ancestor_unavailable_cases", "merge_calls", "accepted", "refused", "order_pairs_compared", "merge_via_store"]
 EXHAUSTIVE = {"quick": True, "thorough": True}
 
 POLICIES = [None, ["add"], ["add", "remove"], ["add", "change"], ["add", "remove", "change"]]
@@ -220,6 +221,22 @@ def run_shard(ctx):
             names = ["a", "b", "d/x", "d/y", "d/e/z", "é/日本"]
 
             def mk(listing):
+                if listing and rng.random() < 0.25:
+                    # a legal directory object in a non-canonical layout (other entry order / separators), filed under the
+                    # digest of its own bytes - what another tool or an older version may have written
+                    import hashlib as _h
+                    import json as _j
+
+                    lst = [{"relpath": r_, "md5": d_} for r_, d_ in listing.items()]
+                    rng.shuffle(lst)
+                    raw = _j.dumps(lst, separators=(",", ":")).encode()
+                    oid = _h.md5(raw).hexdigest() + ".dir"  # noqa: S324
+                    pth = odb.oid_to_path(oid)
+                    os.makedirs(os.path.dirname(pth), exist_ok=True)
+                    with open(pth, "wb") as f:
+                        f.write(raw)
+                    res.count("non_canonical_stored_listings")
+                    return HashInfo("md5", oid)
                 t = Tree()
                 for rel, dg in listing.items():
                     t.add(tuple(rel.split("/")), Meta(size=3), HashInfo("md5", dg))
@@ -246,6 +263,11 @@ def run_shard(ctx):
 
             pol = rng.choice(POLICIES)
             ours, theirs = derive(pol is not None and len(pol) > 1), derive(pol is not None and len(pol) > 1)
+            ff = rng.random()
+            if ff < 0.15:
+                ours = dict(anc)  # pure fast-forward
+            elif ff < 0.3:
+                theirs = dict(anc)
             with_anc = rng.random() < 0.8
             if not with_anc:
                 anc = {}
@@ -275,6 +297,14 @@ def run_shard(ctx):
                 else:
                     with open(ap, "wb") as f:
                         f.write(b"[{")
+            if not damaged and with_anc and rng.random() < 0.5:
+                # the same stored trees were merged before under a permissive policy (nothing remembered then may be reused now)
+                res.count("policy_sequences")
+                for pre_pol in (["add", "remove", "change"], rng.choice(POLICIES)):
+                    try:
+                        merge(odb, a_hi, o_hi, t_hi, allowed=pre_pol)
+                    except Exception:  # noqa: BLE001
+                        pass
             try:
                 merged = merge(odb, a_hi, o_hi, t_hi, allowed=pol)
             except MergeError:
@@ -299,6 +329,12 @@ def run_shard(ctx):
             elif got != exp:
                 res.violation("wrong-result/store" + ("/ancestor-unavailable" if damaged else ""), "merge() result differs from the three-way merge", case=case,
                               detail={"anc": anc, "ours": ours, "theirs": theirs, "policy": pol, "got": got, "expected": exp})
+            oo, to = side_ops(anc, ours), side_ops(anc, theirs)
+            allowed = set(pol or ["add"])
+            if not damaged and not conflicts and oo and to and not (oo <= allowed and to <= allowed):
+                res.violation("policy-breach/store/" + ("default" if pol is None else "+".join(pol)),
+                              f"merge() accepted a both-sides merge although a side did {sorted((oo | to) - allowed)}", case=case,
+                              detail={"anc": anc, "ours": ours, "theirs": theirs, "policy": pol})
             if merged.hash_info.value != canonical_dir_oid(got) or merged.oid != merged.hash_info.value:
                 res.violation("merged-oid-not-canonical", "merged listing's identifier is not the canonical oid of its content",
                               case=case, detail={"got": merged.hash_info.value, "expected": canonical_dir_oid(got)})
